@@ -59,7 +59,8 @@ try:
       runsh = os.path.join(seed, "demo", "run.sh")
       if os.path.exists(runsh):
           def run_demo():
-              return sh(f"sh {runsh} {WT}", cwd=os.path.join(seed, "demo"), timeout=1500)
+              interp = "bash" if "bash" in open(runsh).readline() else "sh"
+              return sh(f"{interp} {runsh} {WT}", cwd=os.path.join(seed, "demo"), timeout=1500)
           tests, dest = [runsh], "demo/run.sh"
       if tests and dest:
           rc0, out0 = run_demo()
@@ -73,7 +74,7 @@ try:
       if tests and dest:
           rc1, out1 = run_demo()
           res["demo_fails_with_patch"] = rc1 != 0
-          res["demo_cmd"] = f"sh demo/run.sh <worktree>" if os.path.exists(runsh) else f"cp {os.path.basename(tests[0])} {dest} && go test -vet=off -count=1 -run '{pat}' {pkg}"
+          res["demo_cmd"] = (("bash" if "bash" in open(runsh).readline() else "sh") + " demo/run.sh <worktree>") if os.path.exists(runsh) else f"cp {os.path.basename(tests[0])} {dest} && go test -vet=off -count=1 -run '{pat}' {pkg}"
 finally:
     subprocess.run(f"git -C /repo worktree remove --force {WT}", shell=True, stdout=subprocess.DEVNULL, stderr=subprocess.DEVNULL)
 json.dump(res, open(VER, "w"))
